@@ -468,8 +468,11 @@ def judge(case, impl, model):
                 if dict(rs.get("wraps", {})) != {k: v for k, v in ms.get("wraps", {}).items()}:
                     msgs.append(f"step {i} define c={op['c']}: implicit wrappers check {rs.get('wraps')} in the real code, {ms.get('wraps')} in the model")
         elif op["op"] == "toSchema" and rs.get("done") and "required" in rs:
-            if "err" not in rs and sorted(ms.get("keys", [])) != rs["required"]:
-                msgs.append(f"step {i} toSchema c={op['c']}: _required after = {rs['required']} real, {sorted(ms.get('keys', []))} model")
+            if sorted(ms.get("requiredAfter") or []) != rs["required"]:
+                msgs.append(f"step {i} toSchema c={op['c']}: _required after = {rs['required']} real, {sorted(ms.get('requiredAfter') or [])} model")
+            if "schemaRequired" in rs and len(flat_fields(srcs_of(case), op["c"])) > 1 \
+                    and sorted(ms.get("keys", [])) != rs["schemaRequired"]:
+                msgs.append(f"step {i} toSchema c={op['c']}: schema 'required' = {rs['schemaRequired']} real, {sorted(ms.get('keys', []))} model")
             if "err" not in rs and bool(ms.get("wrote")) != bool(rs.get("wrote")):
                 msgs.append(f"step {i} toSchema c={op['c']}: wrote _required real={rs.get('wrote')} model={ms.get('wrote')}")
     mw = model.get("world", {})
@@ -513,6 +516,10 @@ def judge(case, impl, model):
         key = finding_key(case, c, impl, model)
         fails.append((key, f"class {c} ({case_name(case, c)}) behaves differently after the history than alone: {d}"))
     return ("; ".join(msgs[:4]) if msgs else None), fails
+
+
+def srcs_of(case):
+    return {op["c"]: op["src"] for op in case["ops"] if op["op"] == "define"}
 
 
 def has_ref(case, c):
